@@ -16,4 +16,4 @@ require (
 	golang.org/x/sys v0.24.0 // indirect
 )
 
-replace github.com/inspirer/textmapper => /tmp/stage/repo
+replace github.com/inspirer/textmapper => /repo
